@@ -457,9 +457,9 @@ class StridedInterval:
         if len(nsplit) == 2:
             # nsplit[0] is on the left hemisphere, and nsplit[1] is on the right hemisphere
 
-            # The left one
-            lb_1 = nsplit[0].lower_bound
-            ub_1 = nsplit[0].upper_bound
+            # The left one (it may start below zero when `self` also straddles the south pole)
+            lb_1 = self._unsigned_to_signed(nsplit[0].lower_bound, self.bits)
+            ub_1 = self._unsigned_to_signed(nsplit[0].upper_bound, self.bits)
 
             # The right one
             lb_2 = nsplit[1].lower_bound
